@@ -66,5 +66,13 @@ Inductive wstmt :=
 (* the binary operator overloads of LinearSpaceElement *)
 Inductive opname := OAdd | OIAdd | OSub | OISub | ORSub | OMul | OIMul | OTrueDiv | OITrueDiv | ORTrueDiv.
 
+(* what the dispatch can see of a dtype: the type code dtype.char (as its character code) and
+   whether the byte order is native *)
+Record dtinfo := mkdt { dt_char : Z; dt_native : bool }.
+Definition dt_char_in (d : dtinfo) (codes : list Z) : bool := existsb (Z.eqb (dt_char d)) codes.
+(* the dtypes BLAS level 1 updates in place without conversion: NATIVE float32 'f' (102), float64 'd' (100),
+   complex64 'F' (70), complex128 'D' (68) -- exactly the table _BLAS_DTYPES (pinned by the translator) *)
+Definition native_blas (d : dtinfo) : bool := dt_native d && dt_char_in d [102; 100; 70; 68]%Z.
+
 Inductive regime := Direct | Fallback | Blas.
 Inductive order := OrdC | OrdF.
